@@ -394,8 +394,10 @@ class Run:
         self.cov["known_findings_seen"] = [k for k, _ in self.known]
         if not self.cov["samples"]:
             self.cov["samples"] = ["(none)"]
-        os.makedirs(os.path.join(ROOT, "evidence"), exist_ok=True)
-        json.dump(ev, open(os.path.join(ROOT, "evidence", self.prop + ".json"), "w"), indent=1, default=str)
+        # runs against a private copy of the repository (seeded changes) never touch the evidence of /repo
+        evdir = os.path.join(ALT, "evidence") if ALT else os.path.join(ROOT, "evidence")
+        os.makedirs(evdir, exist_ok=True)
+        json.dump(ev, open(os.path.join(evdir, self.prop + ".json"), "w"), indent=1, default=str)
         return 1 if self.violations else 0
 
 
